@@ -377,6 +377,8 @@ def check_names_bound(prog: Program, res, rule: str) -> None:
         for f in funcs:
             for x, place, val, pa, pb in crossed_roles(f):
                 res.violation(rule, f, x, f"`{place}` receives `{unparse(val)[:60]}` in {f.short}: what is named after `{pb}` is handed on as `{pa}` (and nothing named after `{pa}` is in it) — the two roles are swapped / one is used twice, silently", construct=f"{place}={unparse(val)[:40]}", key_extra=f"crossed-roles-{place}")
+            for x, txt, sib in duplicated_siblings(f):
+                res.violation(rule, f, x, f"`{txt[:50]}` appears twice in `{unparse(x)[:70]}` of {f.short} although `{sib}` is at hand: one of the two was meant to be the sibling — a check that tests one side twice, a pair built from one member", construct=unparse(x)[:60], key_extra=f"duplicated-sibling-{txt[:30]}")
             for q in ignored_parameters(prog, f):
                 res.violation(rule, f, f.node, f"parameter `{q}` of {f.short} is accepted but never read: a caller that sets it gets the behaviour of the default, silently", construct=f"def {f.name}(… {q} …)", key_extra=f"ignored-parameter-{q}")
             for c, lab, opt in dropped_companions(prog, f):
@@ -485,8 +487,10 @@ def _thin(e: ast.AST) -> bool:
         return all(_thin(x) for x in e.elts)
     if isinstance(e, (ast.GeneratorExp, ast.ListComp)):
         return _thin(e.elt) and all(_thin(g.iter) or isinstance(g.iter, ast.Call) and isinstance(g.iter.func, ast.Attribute) and g.iter.func.attr in ("values", "items", "keys") for g in e.generators)
-    if isinstance(e, ast.Call) and isinstance(e.func, ast.Name) and e.func.id in ("tuple", "list", "all", "any") and len(e.args) == 1 and not e.keywords:
+    if isinstance(e, ast.Call) and isinstance(e.func, ast.Name) and e.func.id in ("tuple", "list", "all", "any", "len", "str", "float", "int") and len(e.args) == 1 and not e.keywords:
         return _thin(e.args[0])
+    if isinstance(e, ast.Call) and isinstance(e.func, ast.Attribute) and e.func.attr in ("tolist", "squeeze", "copy", "item", "ravel", "flatten") and not e.args and not e.keywords:
+        return _thin(e.func.value)
     return False
 
 
@@ -502,8 +506,20 @@ def crossed_roles(fi: FuncInfo) -> list:
             t = x.targets[0]
             if not (isinstance(t, ast.Name) and isinstance(x.value, ast.Name)):
                 pairs.append((t.id if isinstance(t, ast.Name) else t.attr, x.value))
+        elif isinstance(x, ast.Assign) and len(x.targets) == 1 and isinstance(x.targets[0], ast.Subscript) and isinstance(x.targets[0].slice, ast.Constant) and isinstance(x.targets[0].slice.value, str):
+            pairs.append((x.targets[0].slice.value, x.value))  # d["zmin"] = …
+        if isinstance(x, ast.Dict):
+            pairs += [(k.value, v) for k, v in zip(x.keys, x.values) if isinstance(k, ast.Constant) and isinstance(k.value, str)]
         if isinstance(x, ast.Call):
             pairs += [(k.arg, k.value) for k in x.keywords if k.arg]
+            # positional arguments of calls to functions of the package, under the callee's parameter names
+            pos = getattr(x, "_kwpos", None) or {}
+            pairs += [(q, x.args[i]) for q, i in pos.items() if i < len(x.args) and not any(isinstance(a_, ast.Starred) for a_ in x.args[: i + 1])]
+        if isinstance(x, ast.Return) and x.value is not None and not (fi.name.startswith("__") and fi.name.endswith("__")):
+            # an accessor named after one member hands out that member
+            pairs.append((fi.name, x.value))
+        # both arms of a conditional expression are values of the place
+        pairs = [(pl, arm) for pl, v in pairs for arm in ([v.body, v.orelse] if isinstance(v, ast.IfExp) else [v])]
         for place, val in pairs:
             if not _thin(val):
                 continue
@@ -539,22 +555,23 @@ def ignored_parameters(prog: Program, fi: FuncInfo) -> list:
     methods, stubs (abstract, overloads, bodies that only raise / pass), and methods whose signature is imposed by an
     interface (they override a method of a base class or are overridden in a subclass)"""
     node = fi.node
-    if fi.name.startswith("__") and fi.name.endswith("__"):
+    if fi.name.startswith("__") and fi.name.endswith("__") and fi.name not in ("__init__", "__post_init__", "__call__", "__new__"):
         return []
     if fi.is_abstract or any(d.split(".")[-1] in ("overload", "abstractmethod", "singledispatch", "register") for d in fi.decorators()):
         return []
     body = [s for s in node.body if not (isinstance(s, ast.Expr) and isinstance(s.value, ast.Constant))]
     if not body or all(isinstance(s, (ast.Pass, ast.Raise)) or (isinstance(s, ast.Return) and (s.value is None or isinstance(s.value, ast.Constant))) for s in body):
         return []
+    imposed: set = set()  # parameters that another version of the method in the hierarchy declares as well
     if fi.cls is not None:
         for k in prog.mro(fi.cls)[1:]:
             if isinstance(k, ClassInfo) and fi.name in k.methods:
-                return []
+                imposed |= set(k.methods[fi.name].param_names())
             if not isinstance(k, ClassInfo) and fi.name in prog.external_attrs(k) and fi.name not in dir(object):
                 return []
         for k in prog.subclasses(fi.cls):
             if fi.name in k.methods:
-                return []
+                imposed |= set(k.methods[fi.name].param_names())
     # a function that is handed around as a value (stored in a table of strategies, passed as a callback) has the
     # signature its users call it with
     for x in ast.walk(fi.module.tree):
@@ -563,6 +580,8 @@ def ignored_parameters(prog: Program, fi: FuncInfo) -> list:
             break
     if fi.cls is None and fi.name in _used_as_value.get((fi.module.path, id(fi.module.tree)), set()):
         return []
+    if fi.name in ("__init__", "__post_init__", "__new__"):
+        imposed = set()  # a constructor's parameters are its own: what the base takes as well is handed to super()
     a = node.args
     params = [q.arg for q in [*a.posonlyargs, *a.args, *a.kwonlyargs]]
     if fi.cls is not None and not fi.is_staticmethod and params:
@@ -570,7 +589,54 @@ def ignored_parameters(prog: Program, fi: FuncInfo) -> list:
     used = {y.id for s in node.body for y in ast.walk(s) if isinstance(y, ast.Name)}
     if any(isinstance(y, ast.Call) and isinstance(y.func, ast.Name) and y.func.id in ("locals", "vars") for s in node.body for y in ast.walk(s)):
         return []
-    return [q for q in params if not q.startswith("_") and q not in used]
+    return [q for q in params if not q.startswith("_") and q not in used and q not in imposed]
+
+
+def duplicated_siblings(fi: FuncInfo) -> list:
+    """[(node, text, sibling)]: a sequence — the elements of a tuple / list, the arguments of a call, the operands of a
+    boolean operation or comparison — holds the SAME expression twice, the expression is named after one member of a
+    sibling family and the function has the like-named other member at hand (`(zmin, zmin)` where `zmax` exists,
+    `a.ndim != 2 or a.ndim != 2` where `b` exists): one of the two was meant to be the sibling.  Log / warning calls are
+    not judged"""
+    bound = {x.id for x in ast.walk(fi.node) if isinstance(x, ast.Name)} | {a.arg for a in ast.walk(fi.node) if isinstance(a, ast.arg)} | {x.attr for x in ast.walk(fi.node) if isinstance(x, ast.Attribute)}
+    logs: set = set()
+    for c in ast.walk(fi.node):
+        if isinstance(c, ast.Call) and ((isinstance(c.func, ast.Attribute) and isinstance(c.func.value, ast.Name) and c.func.value.id in ("logger", "logging", "warnings", "log")) or (isinstance(c.func, ast.Name) and c.func.id in ("print", "warn"))):
+            logs |= {id(y) for y in ast.walk(c)}
+    out = []
+    for x in walk_no_nested(fi.node):
+        if id(x) in logs:
+            continue
+        if isinstance(x, (ast.Tuple, ast.List)):
+            seq = x.elts
+        elif isinstance(x, ast.Call):
+            seq = list(x.args)
+        elif isinstance(x, ast.BoolOp):
+            seq = x.values
+        elif isinstance(x, ast.Compare):
+            seq = [x.left, *x.comparators]
+        else:
+            continue
+        if len(seq) < 2:
+            continue
+        txt = [unparse(e) for e in seq]
+        for i in range(len(seq)):
+            for j in range(i + 1, len(seq)):
+                if txt[i] != txt[j] or isinstance(seq[i], ast.Constant):
+                    continue
+                for y in ast.walk(seq[i]):
+                    nm = y.id if isinstance(y, ast.Name) else y.attr if isinstance(y, ast.Attribute) else None
+                    if not nm:
+                        continue
+                    for fam in _FAMILIES:
+                        for a in fam:
+                            if not _re.search(rf"(^|_|[a-z]){a}($|_|\d)" if not a.isdigit() else rf"[A-Za-z_]{a}$", nm):
+                                continue
+                            for b in fam - {a}:
+                                cand = (nm[:-1] + b) if a.isdigit() else _re.sub(rf"{a}(?=$|_|\d)", b, nm, count=1)
+                                if cand != nm and cand in bound and not any(o[0] is x for o in out):
+                                    out.append((x, txt[i], cand))
+    return out
 
 
 # ----------------------------------------------------------------------------- data and conventions travel along
